@@ -54,6 +54,10 @@ pub enum Entry {
     Iter,
     /// through `&mut dyn RngCore`
     Dyn,
+    /// `rng.gen::<[P; 4]>()` (rand's array impl calls the crate's sampler four times)
+    Arr4,
+    /// `rng.gen::<(P, P)>()`
+    Pair,
 }
 
 impl Entry {
@@ -63,6 +67,8 @@ impl Entry {
             Entry::Sample => "sample",
             Entry::Iter => "iter",
             Entry::Dyn => "dyn",
+            Entry::Arr4 => "arr4",
+            Entry::Pair => "pair",
         }
     }
     pub fn parse(s: &str) -> Option<Entry> {
@@ -71,6 +77,8 @@ impl Entry {
             "sample" => Some(Entry::Sample),
             "iter" => Some(Entry::Iter),
             "dyn" => Some(Entry::Dyn),
+            "arr4" => Some(Entry::Arr4),
+            "pair" => Some(Entry::Pair),
             _ => None,
         }
     }
@@ -428,18 +436,37 @@ impl RngCore for ScriptedRng {
 // Calling the real sampler
 // ---------------------------------------------------------------------------------------
 
-fn sample_one<R: RngCore>(qt: QT, entry: Entry, rng: &mut R) -> u32 {
+/// One call into the crate's sampler through `entry`; pushes every posit it produced.
+/// Returns the first one (the only one for the single-sample entries).
+fn sample_call<R: RngCore>(qt: QT, entry: Entry, rng: &mut R, out: &mut Vec<u32>) {
     macro_rules! go {
         ($P:ty) => {{
-            let p: $P = match entry {
-                Entry::Gen | Entry::Iter => rng.gen(),
-                Entry::Sample => Standard.sample(rng),
+            match entry {
+                Entry::Gen | Entry::Iter => {
+                    let p: $P = rng.gen();
+                    out.push(p.to_bits() as u32);
+                }
+                Entry::Sample => {
+                    let p: $P = Standard.sample(rng);
+                    out.push(p.to_bits() as u32);
+                }
                 Entry::Dyn => {
                     let d: &mut dyn RngCore = rng;
-                    d.gen()
+                    let p: $P = d.gen();
+                    out.push(p.to_bits() as u32);
                 }
-            };
-            p.to_bits() as u32
+                Entry::Arr4 => {
+                    let a: [$P; 4] = rng.gen();
+                    for p in a {
+                        out.push(p.to_bits() as u32);
+                    }
+                }
+                Entry::Pair => {
+                    let (a, b): ($P, $P) = rng.gen();
+                    out.push(a.to_bits() as u32);
+                    out.push(b.to_bits() as u32);
+                }
+            }
         }};
     }
     match qt {
@@ -447,6 +474,12 @@ fn sample_one<R: RngCore>(qt: QT, entry: Entry, rng: &mut R) -> u32 {
         QT::Q16 => go!(P16E1),
         QT::Q32 => go!(P32E2),
     }
+}
+
+fn sample_one<R: RngCore>(qt: QT, entry: Entry, rng: &mut R) -> Vec<u32> {
+    let mut v = Vec::with_capacity(4);
+    sample_call(qt, entry, rng, &mut v);
+    v
 }
 
 fn sample_iter<R: RngCore>(qt: QT, n: usize, rng: &mut R, out: &mut Vec<u32>) {
@@ -541,13 +574,15 @@ pub fn run_rcase(case: &RCase) -> (ROutcome, Vec<u32>) {
         for i in 0..case.nsamples {
             let r = catch_unwind(AssertUnwindSafe(|| sample_one(case.qt, case.entry, &mut rng)));
             match r {
-                Ok(b) => {
-                    outs.push(b);
-                    if let Some(c) = judge(case.qt, b) {
-                        return (
-                            ROutcome::Fail(RFailure { clause: c, sample: i, observed: format!("sample = {:x}", b) }),
-                            outs,
-                        );
+                Ok(bs) => {
+                    for b in bs {
+                        outs.push(b);
+                        if let Some(c) = judge(case.qt, b) {
+                            return (
+                                ROutcome::Fail(RFailure { clause: c, sample: i, observed: format!("sample = {:x}", b) }),
+                                outs,
+                            );
+                        }
                     }
                 }
                 Err(e) => match classify(e) {
@@ -655,12 +690,13 @@ pub fn generate_and_run_traced(seed: u64, run: u64, st: &mut Stats, outcomes: &[
     if skew {
         st.hit(Pr::rng_skew);
     }
-    let entry = [Entry::Gen, Entry::Sample, Entry::Iter, Entry::Dyn][rng.weighted(&[4, 3, 2, 2])];
+    let entry = [Entry::Gen, Entry::Sample, Entry::Iter, Entry::Dyn, Entry::Arr4, Entry::Pair][rng.weighted(&[8, 6, 4, 4, 1, 1])];
     st.hit(match entry {
         Entry::Gen => Pr::rng_entry_gen,
         Entry::Sample => Pr::rng_entry_sample,
         Entry::Iter => Pr::rng_entry_iter,
         Entry::Dyn => Pr::rng_entry_dyn,
+        Entry::Arr4 | Entry::Pair => Pr::rng_entry_multi,
     });
     if let Some(t) = trace.as_mut() {
         let _ = writeln!(t, "type {}\nentry {}\nnsamples {}", qt.pname(), entry.name(), nsamples);
@@ -695,12 +731,29 @@ pub fn generate_and_run_traced(seed: u64, run: u64, st: &mut Stats, outcomes: &[
             }
         }
     } else {
+        sim.cap_factor = match entry {
+            Entry::Arr4 => 4,
+            Entry::Pair => 2,
+            _ => 1,
+        };
         for i in 0..nsamples {
             sim.begin_sample();
             starts.push(sim.served.len());
             let r = catch_unwind(AssertUnwindSafe(|| sample_one(qt, entry, &mut sim)));
             match r {
-                Ok(b) => outs.push(b),
+                Ok(bs) => {
+                    for b in bs {
+                        if failure.is_none() {
+                            if let Some(c) = judge(qt, b) {
+                                failure = Some(RFailure { clause: c, sample: i, observed: format!("sample = {:x}", b) });
+                            }
+                        }
+                        outs.push(b);
+                    }
+                    if failure.is_some() {
+                        break;
+                    }
+                }
                 Err(e) => {
                     failure = Some(match classify(e) {
                         Caught::NoProgress => RFailure {
@@ -716,7 +769,12 @@ pub fn generate_and_run_traced(seed: u64, run: u64, st: &mut Stats, outcomes: &[
             }
             // rejection-loop length of this sample
             let used = sim.sample_draws;
-            let minimal = match qt {
+            let per = match entry {
+                Entry::Arr4 => 4,
+                Entry::Pair => 2,
+                _ => 1,
+            };
+            let minimal = per * match qt {
                 QT::Q32 => 2,
                 _ => 1,
             };
@@ -728,8 +786,8 @@ pub fn generate_and_run_traced(seed: u64, run: u64, st: &mut Stats, outcomes: &[
             }
         }
     }
-    // judge outcomes
-    if failure.is_none() {
+    // judge outcomes (the iterator entry; the per-call entries were judged as they came)
+    if failure.is_none() && entry == Entry::Iter {
         for (i, &b) in outs.iter().enumerate() {
             if let Some(c) = judge(qt, b) {
                 failure = Some(RFailure { clause: c, sample: i, observed: format!("sample = {:x}", b) });
@@ -763,7 +821,7 @@ pub fn generate_and_run_traced(seed: u64, run: u64, st: &mut Stats, outcomes: &[
     }
     // probes that assume rand 0.8's widening-multiply mapping and the crate's present ranges
     // (informational only: they say which corners of the present code were reached)
-    if entry != Entry::Iter {
+    if !matches!(entry, Entry::Iter | Entry::Arr4 | Entry::Pair) {
         for (i, &s) in starts.iter().enumerate() {
             let e = if i + 1 < starts.len() { starts[i + 1] } else { sim.served.len() };
             if e <= s || i >= outs.len() {
@@ -887,7 +945,7 @@ pub fn minimise(gen: &RGenerated, target: RClause) -> (RCase, RFailure) {
     }
     // 3. simpler entry point
     for e in [Entry::Gen] {
-        if best.entry != e {
+        if best.entry != e && !matches!(best.entry, Entry::Arr4 | Entry::Pair) {
             let c = RCase { entry: e, ..best.clone() };
             if let Some(f) = fails(&c) {
                 best = c;
